@@ -210,6 +210,7 @@ func playBehaviour(c *Cluster, evs []sEvent, offset int64) []*Line {
 			}
 			vals = e.Env.Ledger.Vals
 			n = NewNode(id, *e.Cfg, c, c.Clk)
+			n.LaxVerify = !e.Sync // schedules of the specification: the application does not look at block bodies, except in fault-free synchronous ones (C08)
 			n.Broadcast = func(n *Node, p *Payload) {
 				q := p.clone()
 				sentBy[n.ID] = append(sentBy[n.ID], q)
